@@ -148,6 +148,58 @@ def rules(ck, P):
         inv = {v: k for k, v in gt.items()}
         ck.check(all(tab.get(e) == inv.get(e) for e in ("G", "B")) and tab.get("G") == CE_SPEC["G"] and tab.get("B") == CE_SPEC["B"], "R-CE-TABLE", "inverse",
                  "request and response tables are inverse and use the IANA content-coding names", "request/response tables disagree: %s vs %s" % (gt, tab))
+    # the allowed set derived from the request is never widened on its way to optimize_compression: outside get_encoding, a
+    # TargetCompression value is only changed through methods that touch nothing but the compression goal
+    widen = []
+    n_mut = 0
+    scope = [b for b in P.bodies if b["q"].startswith("versatiles::tools::server::") and not b["q"].endswith("tile_server::get_encoding")]
+    for b in scope:
+        for n in ir.walk_nodes(b["body"]):
+            if n.get("k") == "mcall":
+                r = ir.strip(n["recv"])
+                rt = (r.get("t") or "") + (r.get("ta") or "")
+                if "TargetCompression" not in rt and "EnumSet<" not in rt:
+                    continue
+                if "EnumSet<" in rt and "TargetCompression" not in rt:
+                    # direct access to the `compressions` field of a TargetCompression
+                    if not (r.get("k") == "field" and "TargetCompression" in ((ir.strip(r["e"]).get("t") or "") + (ir.strip(r["e"]).get("ta") or ""))):
+                        continue
+                    if n.get("name") in ("insert", "insert_all", "extend", "toggle", "set") or n.get("name", "").startswith("insert"):
+                        widen.append("%s: .compressions.%s(..)" % (ir.loc(n), n["name"]))
+                    continue
+                cal = P.fn(ir.callee(n) or "")
+                if cal is None or not (cal.get("in_t") or [""])[0].startswith("&mut"):
+                    continue
+                n_mut += 1
+                writes = [ir.strip(y["l"]).get("name") for y in ir.walk_nodes(cal["body"]) if y.get("k") in ("assign", "assignop") and ir.strip(y["l"]).get("k") == "field"]
+                other = [y["name"] for y in ir.walk_nodes(cal["body"]) if y.get("k") == "mcall" and ir.place_str(y["recv"]).startswith("self.") and
+                         y["name"] in ("insert", "insert_all", "extend", "toggle", "remove", "clear")]
+                if any(w != "compression_goal" for w in writes) or other:
+                    widen.append("%s: %s(..) changes %s" % (ir.loc(n), n["name"], sorted(set([w for w in writes if w != "compression_goal"] + other))))
+            if n.get("k") in ("assign", "assignop") and ir.strip(n["l"]).get("k") == "field" and ir.strip(n["l"]).get("name") == "compressions" and \
+                    "TargetCompression" in ((ir.strip(ir.strip(n["l"])["e"]).get("t") or "") + (ir.strip(ir.strip(n["l"])["e"]).get("ta") or "")):
+                widen.append("%s: .compressions assigned" % ir.loc(n))
+    ck.anchor("R-CE-TABLE", "goal-only mutations of the allowed set in the server", n_mut, 3)
+    # every ok_data call in a handler receives the value derived from this request's headers
+    n_okd = 0
+    bad_okd = []
+    for b in scope:
+        lets = comp.lets_of(b)
+        for n in ir.walk_nodes(b["body"]):
+            if n.get("k") == "call" and (n.get("q") or "").endswith("tile_server::ok_data") and len(n.get("a", ())) == 2:
+                n_okd += 1
+                a1 = ir.strip(n["a"][1])
+                if a1.get("k") == "call" and (a1.get("q") or "").endswith("TargetCompression::from_none"):
+                    continue          # identity only: acceptable to every client
+                h = ir.local_hid(n["a"][1])
+                init = lets.get(h) if h is not None else None
+                if init is None or not ir.contains(init, lambda y: y.get("k") == "call" and (y.get("q") or "").endswith("tile_server::get_encoding")):
+                    bad_okd.append(ir.loc(n))
+    ck.anchor("R-CE-TABLE", "ok_data call sites", n_okd, 2)
+    ck.check(not bad_okd, "R-CE-TABLE", "allowed-set|from-request", "every ok_data call receives the set that get_encoding derived from the request's headers (%d call site(s))" % n_okd,
+             "ok_data is called with an allowed set that does not come from get_encoding(headers) at %s" % bad_okd)
+    ck.check(not widen, "R-CE-TABLE", "allowed-set|not-widened", "after get_encoding the allowed encodings are never extended: the server changes only the compression goal (%d mutation site(s))" % n_mut,
+             "the set of encodings the client listed is changed after it was derived from Accept-Encoding (%s): the response can carry a Content-Encoding the client did not list" % widen[:3])
     # tile source: compression and mime come from the reader's parameters
     ts = [b for b in P.bodies if b["q"].endswith("tile_source::TileSource::from")]
     if ck.anchor("R-CE-TABLE", "TileSource::from", ts, 1):
